@@ -472,8 +472,11 @@ class CodeFence(BlockToken):
         for line in lines:
             stripped_line = line.lstrip(' ')
             diff = len(line) - len(stripped_line)
-            if (stripped_line.startswith(cls._open_info[1])
-                    and len(stripped_line.split(maxsplit=1)) == 1
+            # a closing fence consists of the fence character only (at least as many as in the
+            # opening fence), optionally followed by whitespace
+            closing = stripped_line.rstrip()
+            if (closing.startswith(cls._open_info[1])
+                    and closing.strip(cls._open_info[1][0]) == ''
                     and diff < 4):
                 break
             if diff > cls._open_info[0]:
